@@ -9,6 +9,8 @@ PROPS = ['Props/C17.lean']
 
 
 def keyfn(case, res, m):
+    if case.get('kind') == 'timed':
+        return f"{m['rule']}:{case['target']}"
     if case.get('chooser') == ['os']:
         return f"{m['rule']}:process"
     cls = 'stop' if case.get('stop') else ('multi-round' if case['rounds'] > 1 else 'one-round')
@@ -44,6 +46,38 @@ def run(chk):
         chk.account(scen_iq, res, 'E1-detsched')
         chk.collect_monitors(res, {'C17'}, keyfn)
         chk.validate('iterq', scen_iq, res)
+    # timed calls: one blocked put/get with an explicit timeout (shorter / equal / longer than the wait
+    # interval, or none) on IterableQueue.put and ResponsiveQueue.put/get, stop request and/or rescue at
+    # generated moments: monitors (stop clause on the call) + differential against `timedCall` (Lean)
+    tcases = TIMED_CORPUS + [scen_iq.gen_timed_case(chk.rng, chk.tier) for _ in range(400 if chk.tier == 'quick' else 8000)]
+    tres = chk.run_cases('scen_iq', tcases)
+    chk.account(scen_iq, tres, 'E1-detsched')
+    chk.collect_monitors(tres, {'C17'}, keyfn)
+    lines = []
+    for k, (case, res) in enumerate(tres):
+        if res.get('timed') is None:
+            continue
+        T, sr, rr = scen_iq.timed_rel(case)
+        args = f'w={scen_iq.WQ} fuel=64' + ''.join(f' {n}={v}' for n, v in (('T', T), ('s', sr), ('r', rr)) if v is not None)
+        lines += [f'tc {k}.0 {args} tie=0', f'tc {k}.1 {args} tie=1']
+    allowed = {}
+    for l in core.run_driver('iterq', lines):
+        w = l.split()
+        if len(w) == 4 and w[0] == 'out':
+            allowed.setdefault(int(w[1].split('.')[0]), set()).add((w[2], int(w[3])))
+    nt = 0
+    for k, (case, res) in enumerate(tres):
+        if res.get('timed') is None:
+            continue
+        obs = (res['timed'][0], res['timed'][1])
+        if obs in allowed.get(k, ()):
+            nt += 1
+        else:
+            chk.corr_breaks.append(dict(model='iterq.timedCall', case=case, events=res['events'], monitors=res['monitors'],
+                                        verdict=f'MISMATCH {k} timedCall allows {sorted(allowed.get(k, ()))}, the implementation ended {obs}'))
+    chk.cov['traces_validated_against_impl'] += nt
+    chk.add_obligation('correspondence', 'timed ResponsiveQueue/IterableQueue calls end as Model.timedCall says (differential, E1 clock)',
+                       nt == sum(1 for _c, r in tres if r.get('timed') is not None), cases=nt)
     # process variant: real processes, OS schedule (sampled); outcome at quiescent points compared with
     # what the theorems predict; no trace validation
     pcases = [scen_iq_proc.gen_case(chk.rng, chk.tier) for _ in range(6 if chk.tier == 'quick' else 160)]
@@ -58,9 +92,9 @@ def run(chk):
     chk.collect_monitors(pres, {'C17'}, keyfn)
     chk.add_obligation('correspondence', 'process variant: outcome at quiescent points = theorem-predicted state (sampled OS schedules)',
                        not any(r['monitors'] for _c, r in pres), cases=len(pres))
-    if chk.corr_breaks:
+    if any(b.get('model') == 'iterq' for b in chk.corr_breaks):
         # recogniser: are the runs the repaired model rejects runs of the model of the pinned code?
-        brk = [b for b in chk.corr_breaks if b.get('events') is not None][:300]
+        brk = [b for b in chk.corr_breaks if b.get('events') is not None and b.get('model') == 'iterq'][:300]
         lines = []
         for k, b in enumerate(brk):
             case = dict(b['case'], legacy_model=True)
@@ -79,7 +113,10 @@ def run(chk):
                        'supplier and round 0..3 incl. duplicate values, with/without stop event, stop request after a '
                        'generated number of scheduling points / virtual seconds with suppliers that never end or consumers '
                        'that never start, renew after the last round or not, chooser, seed) run on the real IterableQueue '
-                       'with real threads under the deterministic scheduler; non-trivial = at least 3 actors, at least one '
+                       'with real threads under the deterministic scheduler; plus timed-call cases = one blocked '
+                       'IterableQueue.put / ResponsiveQueue.put/get with own timeout in {none, 0, block=False, 0.5, 1, 1.5, 2.5, 3, 4, 20 s} '
+                       '(wait interval 1 s), call start, stop request and rescue at generated virtual moments (non-trivial = a stop '
+                       'request or a rescue happens); non-trivial = at least 3 actors, at least one '
                        'value and at least one context switch; distinct = distinct (case, event trace)')
     import collections
     hist = collections.Counter()
@@ -102,6 +139,16 @@ def run(chk):
     chk.trusted += TRUSTED
     chk.assumptions += ASSUMPTIONS
 
+
+# the calls a stop request must still reach although they carry their own (long) timeout
+TIMED_CORPUS = [
+    dict(kind='timed', target='iq.put', T=80, nowait=False, a=0, s=2, r=None, chooser=['random', 0.0], seed=11),
+    dict(kind='timed', target='rq.get', T=80, nowait=False, a=0, s=2, r=None, chooser=['random', 0.0], seed=12),
+    dict(kind='timed', target='rq.put', T=6, nowait=False, a=2, s=4, r=None, chooser=['random', 0.0], seed=13),
+    dict(kind='timed', target='iq.put', T=None, nowait=False, a=0, s=2, r=None, chooser=['random', 0.0], seed=14),
+    dict(kind='timed', target='rq.get', T=4, nowait=False, a=0, s=2, r=None, chooser=['random', 0.0], seed=15),
+    dict(kind='timed', target='rq.get', T=2, nowait=False, a=0, s=0, r=None, chooser=['random', 0.0], seed=16),
+]
 
 # minimal schedule-independent regression cases (run first)
 CORPUS = [
